@@ -2,7 +2,7 @@ SPECIFICATION Spec
 CONSTANTS
   M = {1}
   MaxN = 3
-  Delays = {0, 1, 2}
+  Delays = {0, 1}
   Actives = {0, 1, 2}
   Starts = {2}
   InitBlocks = {1, 3}
@@ -11,5 +11,5 @@ CONSTANTS
   Faults = {"start", "delay", "initiate", "waiter", "next"}
   BadMsgs = {FALSE}
   Prompt = FALSE
-INVARIANTS TypeOK BlockExactInit BlockExactEnd FinishExact NeverEarly InOrder RegisteredIff FailureOutcome FifoNoLoss NotToEarlierState Lockstep LockstepPrompt PromptExact
+INVARIANTS TypeOK BlockExactInit BlockExactEnd FinishExact NeverEarly InOrder RegisteredIff FailureOutcome FifoNoLoss NotToEarlierState Lockstep LockstepPrompt PromptExact DelayProtects InWindowDelivered
 PROPERTIES HandOffDiscipline Monotone
